@@ -1,4 +1,4 @@
-use crate::iter::{ChunksMutP, ChunksP, ParIter};
+use crate::iter::{ChunksExactMutP, ChunksExactP, ChunksMutP, ChunksP, ParIter, WindowsP};
 
 pub trait ParallelSlice<T> {
     fn as_parallel_slice(&self) -> &[T];
@@ -6,6 +6,16 @@ pub trait ParallelSlice<T> {
     fn par_chunks(&self, chunk_size: usize) -> ParIter<ChunksP<'_, T>> {
         assert!(chunk_size != 0, "chunk_size must not be zero");
         ParIter(ChunksP { s: self.as_parallel_slice(), size: chunk_size })
+    }
+
+    fn par_chunks_exact(&self, chunk_size: usize) -> ParIter<ChunksExactP<'_, T>> {
+        assert!(chunk_size != 0, "chunk_size must not be zero");
+        ParIter(ChunksExactP { s: self.as_parallel_slice(), size: chunk_size })
+    }
+
+    fn par_windows(&self, window_size: usize) -> ParIter<WindowsP<'_, T>> {
+        assert!(window_size != 0, "window_size must not be zero");
+        ParIter(WindowsP { s: self.as_parallel_slice(), size: window_size })
     }
 }
 
@@ -21,6 +31,41 @@ pub trait ParallelSliceMut<T> {
     fn par_chunks_mut(&mut self, chunk_size: usize) -> ParIter<ChunksMutP<'_, T>> {
         assert!(chunk_size != 0, "chunk_size must not be zero");
         ParIter(ChunksMutP { s: self.as_parallel_slice_mut(), size: chunk_size })
+    }
+
+    fn par_chunks_exact_mut(&mut self, chunk_size: usize) -> ParIter<ChunksExactMutP<'_, T>> {
+        assert!(chunk_size != 0, "chunk_size must not be zero");
+        ParIter(ChunksExactMutP { s: self.as_parallel_slice_mut(), size: chunk_size })
+    }
+
+    fn par_sort(&mut self)
+    where
+        T: Ord,
+    {
+        self.as_parallel_slice_mut().sort()
+    }
+
+    fn par_sort_unstable(&mut self)
+    where
+        T: Ord,
+    {
+        self.as_parallel_slice_mut().sort_unstable()
+    }
+
+    fn par_sort_by<F: Fn(&T, &T) -> std::cmp::Ordering>(&mut self, f: F) {
+        self.as_parallel_slice_mut().sort_by(f)
+    }
+
+    fn par_sort_unstable_by<F: Fn(&T, &T) -> std::cmp::Ordering>(&mut self, f: F) {
+        self.as_parallel_slice_mut().sort_unstable_by(f)
+    }
+
+    fn par_sort_by_key<K: Ord, F: Fn(&T) -> K>(&mut self, f: F) {
+        self.as_parallel_slice_mut().sort_by_key(f)
+    }
+
+    fn par_sort_unstable_by_key<K: Ord, F: Fn(&T) -> K>(&mut self, f: F) {
+        self.as_parallel_slice_mut().sort_unstable_by_key(f)
     }
 }
 
